@@ -126,10 +126,17 @@ def op_gen_factory(byz):
                 KeyUpdateMessageType.update_not_requested)
         if op[1] == "byz_inner":
             # sender with the keys emits a record whose inner plaintext is
-            # all zeros (no content type) / has a zero-length with type 0
+            # all zeros (no content type); size -1 = a truly EMPTY inner
+            # plaintext (ciphertext is just the AEAD tag)
             from tlslite.messages import Message
-            return lambda: conn._recordLayer.sendRecord(
-                Message(0, bytearray(op[2])))
+            rl = conn._recordLayer
+            if op[2] < 0:
+                def empty():
+                    body = rl._encryptThenSeal(bytearray(0), 23)
+                    for r in rl._recordSocket.send(Message(23, body)):
+                        yield r
+                return empty
+            return lambda: rl.sendRecord(Message(0, bytearray(op[2])))
         raise ValueError(op)
     return op_gen
 
@@ -266,7 +273,8 @@ def run(job, streams=None):
             t["mask"] = 1
         else:
             # executed by the sender itself after its first record
-            extra_ops = [S, "byz_inner", [0, 1, 5, 64][ch.draw(4, "t.zeros")]]
+            extra_ops = [S, "byz_inner", [0, -1, 1, 5, 64, -1][
+                ch.draw(6, "t.zeros")]]
             t = None
     if t is not None:
         t["idx"] = tgt
